@@ -307,6 +307,7 @@ func (d *deps) nodeDeps(n ast.Node, scopes depScopes) []*ast.Identifier {
 		scopes = exitScope(scopes)
 		return deps
 	case *ast.Func:
+		scopes = enterScope(scopes)
 		for _, f := range n.Type.Parameters {
 			if f.Ident != nil {
 				scopes = declareLocally(scopes, f.Ident.Name)
@@ -321,6 +322,7 @@ func (d *deps) nodeDeps(n ast.Node, scopes depScopes) []*ast.Identifier {
 		if n.Body != nil {
 			deps = append(deps, d.nodeDeps(n.Body, scopes)...)
 		}
+		scopes = exitScope(scopes)
 		return deps
 	case *ast.FuncType:
 		deps := []*ast.Identifier{}
